@@ -11,14 +11,19 @@
      the depth limit, fuel of the public entry point sufficient (`C01_structure`, `C01_structure_public`);
      the depth bound is exact (`C01_depth_exact`);
    * end to end: `C01_roundtrip` below.
-  Not yet covered by the theorem: float leaves (they need the ryu specification and the decimal
-  scanner theorems) and byte-vector leaves inside the structural theorem (the token-level theorem
-  `atomRT_bytes` exists); both are carried by the correspondence and the direct oracle.
+   * float leaves (LexprModel/Proofs/Decimals.lean): `atomRT_float`, `C01_roundtrip_floats` — the end to
+     end theorem extended to values whose float leaves satisfy `FloatOK` (ryu meets its specification
+     `RyuSpec`; default build: shortest form within the exactness window, as the property states;
+     build without fast-float-parsing: every finite double).
+  Not covered by the theorem: byte-vector leaves inside the structural theorem (the token-level
+  theorem `atomRT_bytes` exists) and float leaves outside the window in the default build (the
+  property asks only for C05 accuracy there); both are carried by the correspondence and the oracle.
   Also proved here: all print entry points produce the same bytes, no folding in the default pairing.
 -/
 import LexprModel.Props.C07
 import LexprModel.Props.C02
 import LexprModel.Proofs.ListRTGlue
+import LexprModel.Proofs.Decimals
 namespace Lexpr
 
 /-- **C01_roundtrip** (proved for every value without floats and byte vectors; see the header):
